@@ -474,8 +474,7 @@ def check_new_ids(ctx, R, lb, tname, is_fresh):
     return n
 
 
-def r4(ctx):
-    R = 'R01.4'
+def r4(ctx, R='R01.4'):
     ctx.rule(R, 'the record is read back from the store under the id chosen in this iteration')
     n = 0
     for tname, t in T.TRACKERS.items():
